@@ -37,7 +37,7 @@ type Harness struct {
 
 	mu       sync.Mutex
 	Arrivals []Arrival
-	inReobs  bool
+	inReobs  atomic.Bool
 	reobsTx  map[string]int
 	cancel   context.CancelFunc
 	RunExits int32
@@ -64,10 +64,11 @@ func Start(sim *Sim, coreIdHex string, tb [32]byte, mainnet bool, pollMs uint) (
 			case <-ctx.Done():
 				return
 			case m := <-h.msgC:
+				reobs := h.inReobs.Load() // read first, see evmsim
 				v, n := sim.Snapshot()
 				h.mu.Lock()
 				path := "poll"
-				if h.inReobs {
+				if reobs {
 					path = "reobserve"
 				}
 				h.Arrivals = append(h.Arrivals, Arrival{Msg: m, Version: v, LogN: n, Path: path, ReobsN: h.reobsTx[hex.EncodeToString(m.TxHash[:])]})
@@ -144,10 +145,10 @@ func (h *Harness) WaitRounds(n int, wd time.Duration) bool {
 func (h *Harness) Reobserve(txId string, wd time.Duration) bool {
 	b, _ := hex.DecodeString(txId)
 	h.mu.Lock()
-	h.inReobs = true
 	h.reobsTx[txId]++
 	h.mu.Unlock()
-	defer func() { h.mu.Lock(); h.inReobs = false; h.mu.Unlock() }()
+	h.inReobs.Store(true)
+	defer func() { time.Sleep(5 * time.Millisecond); h.inReobs.Store(false) }()
 	send := func(r *gossipv1.ObservationRequest) bool {
 		select {
 		case h.ObsvReqC <- r:
